@@ -9,6 +9,7 @@ import (
 	"math/big"
 	"sort"
 	"strings"
+	"sync"
 
 	sdk "github.com/cosmos/cosmos-sdk/types"
 
@@ -20,7 +21,7 @@ type Stats struct {
 	Situations  map[string]map[string]bool // "Cxx" -> distinct abstract situations
 	Evaluations map[string]int             // "Cxx" -> steps/states judged
 	Violations  []Violation
-	VioHist     map[string]*History // signature -> shortest witness history
+	VioHist     map[string]*History  // signature -> shortest witness history
 	VioBy       map[string]Violation // signature -> the violation as reported in that witness
 	Histories   int
 	Steps       int
@@ -68,6 +69,11 @@ func (s *Stats) Merge(o *Stats) {
 	}
 }
 
+// statsMu guards the violation lists of all workers' Stats, so that the watchdog can
+// report what was found so far if a step never returns.
+var statsMu sync.Mutex
+var allStats []*Stats
+
 type StepCtx struct {
 	Idx  int
 	Step *Step
@@ -79,10 +85,10 @@ type StepCtx struct {
 	blk  *BlockExp // lazily computed for block steps
 }
 
-func (sc *StepCtx) IsBlock() bool { return sc.Step.Kind == "block" }
+func (sc *StepCtx) IsBlock() bool   { return sc.Step.Kind == "block" }
 func (sc *StepCtx) IsRestart() bool { return sc.Step.Kind == "restart" }
-func (sc *StepCtx) IsMsg() bool   { return sc.Step.Kind == "msg" }
-func (sc *StepCtx) Accepted() bool { return sc.Res.OK }
+func (sc *StepCtx) IsMsg() bool     { return sc.Step.Kind == "msg" }
+func (sc *StepCtx) Accepted() bool  { return sc.Res.OK }
 func (sc *StepCtx) opKind() string {
 	switch sc.Step.Kind {
 	case "msg":
@@ -111,64 +117,64 @@ type ReqLedger struct {
 }
 
 type BatchInfo struct {
-	Counter    uint64
-	StartStep  int
-	StartH     int64
-	ExpH       int64
-	Threshold  uint32
-	Issued     int
-	Callbacks  int
-	Closed     bool // expiry block ended
-	CbOutputs  []string
-	CbErr      bool
-	HasCb      bool
-	Module     string
+	Counter   uint64
+	StartStep int
+	StartH    int64
+	ExpH      int64
+	Threshold uint32
+	Issued    int
+	Callbacks int
+	Closed    bool // expiry block ended
+	CbOutputs []string
+	CbErr     bool
+	HasCb     bool
+	Module    string
 }
 
 type Advance struct {
-	H         int64
-	Counter   uint64
-	Timeout   int64
-	Freq      uint64
-	Issued    int
+	H       int64
+	Counter uint64
+	Timeout int64
+	Freq    uint64
+	Issued  int
 	// continuity since this advance
 	RunningAll bool
 	ParamsSame bool
 }
 
 type CtxTimeline struct {
-	ID         string
-	CreatedH   int64
-	CreatedIdx int
-	Module     string
-	Repeated   bool
-	Advances   []Advance
-	MaxTotal   int64
-	NegTotal   bool
-	Batches    map[uint64]*BatchInfo
-	Gone       bool
-	FirstChecked bool
+	ID                      string
+	CreatedH                int64
+	CreatedIdx              int
+	Module                  string
+	Repeated                bool
+	Advances                []Advance
+	MaxTotal                int64
+	NegTotal                bool
+	Batches                 map[uint64]*BatchInfo
+	Gone                    bool
+	FirstChecked            bool
 	RunningAtCreateBlockEnd bool
-	Killed     bool     // an accepted kill was observed
-	KilledIdx  int      // step at which it was observed
-	Restarted  bool     // went through a zero-height restart: lifecycle bounds are not judged across it
-	Providers  []string // providers as named by the consumer (create / accepted update), hex
-	NamedFreq  uint64   // frequency as named by the consumer (0 = never named: defaults to the timeout)
-	NamedTimeout int64
-	NamedSet   bool
+	Killed                  bool     // an accepted kill was observed
+	KilledIdx               int      // step at which it was observed
+	Restarted               bool     // went through a zero-height restart: lifecycle bounds are not judged across it
+	Providers               []string // providers as named by the consumer (create / accepted update), hex
+	NamedFreq               uint64   // frequency as named by the consumer (0 = never named: defaults to the timeout)
+	NamedTimeout            int64
+	NamedSet                bool
 }
 
 type Mon struct {
-	stats *Stats
-	run   *Run
-	reqs  map[string]*ReqLedger
-	ctxs  map[string]*CtxTimeline
-	seenSig map[string]bool
-	broken  map[string]bool // state-invariant rules already violated in this history
-	only  map[string]bool // properties to judge (nil = all)
-	extra []func(sc *StepCtx) // scenario monitors hooked per step (C17, C19)
+	stats    *Stats
+	run      *Run
+	reqs     map[string]*ReqLedger
+	ctxs     map[string]*CtxTimeline
+	seenSig  map[string]bool
+	broken   map[string]bool     // state-invariant rules already violated in this history
+	only     map[string]bool     // properties to judge (nil = all)
+	extra    []func(sc *StepCtx) // scenario monitors hooked per step (C17, C19)
 	atFinish []func(r *Run)
-	histOps map[string]bool
+	histOps  map[string]bool
 }
 
 func NewMon(stats *Stats) *Mon {
@@ -227,6 +233,8 @@ func (m *Mon) fail(sc *StepCtx, prop, rule, sigDetail, format string, a ...inter
 		idx = sc.Idx
 	}
 	v := Violation{Prop: prop, Rule: rule, Sig: sig, Msg: fmt.Sprintf(format, a...), StepIdx: idx, History: m.run.hist.Name}
+	statsMu.Lock()
+	defer statsMu.Unlock()
 	m.stats.Violations = append(m.stats.Violations, v)
 	if cur, ok := m.stats.VioHist[sig]; !ok || len(m.run.hist.Steps) < len(cur.Steps) {
 		// copy of the history so far (the witness); the shortest one is kept
@@ -284,12 +292,12 @@ type ExpBinding struct {
 }
 
 type BlockExp struct {
-	H          int64
-	Expiring   []string            // pending requests of pre with expiry == h
-	Failures   []string            // the non-super ones
-	Refunds    map[string]*big.Int // consumer hex -> amount
-	Bindings   map[string]*ExpBinding
-	Burned     *big.Int
+	H        int64
+	Expiring []string            // pending requests of pre with expiry == h
+	Failures []string            // the non-super ones
+	Refunds  map[string]*big.Int // consumer hex -> amount
+	Bindings map[string]*ExpBinding
+	Burned   *big.Int
 }
 
 func (sc *StepCtx) block() *BlockExp {
@@ -342,9 +350,9 @@ func (sc *StepCtx) block() *BlockExp {
 // as they stand after the expiry phase. Returns the surely-eligible list, the
 // possibly-eligible list (differs only when a price is ambiguous at the cap), prices.
 type EligInfo struct {
-	Sure, Maybe []string             // provider hex, context order
+	Sure, Maybe      []string // provider hex, context order
 	PriceLo, PriceHi map[string]*big.Int
-	Labels  map[string]string
+	Labels           map[string]string
 }
 
 func (sc *StepCtx) eligible(rc types.RequestContext, bindAfter map[string]*ExpBinding) *EligInfo {
